@@ -72,6 +72,41 @@ static std::vector<CheckDef> g_checks = {
           "key data, restarts; oracle = one-shot call of the same family; distinct_nontrivial: distinct (family, key size, direction, "
           "carried partial length, fragment residue, fragment class, nt, in-place) cells",
           { "the one-shot call of the same family is the oracle, not an object under test (that would be C02)" } },
+        { "C08", "exploration", { { "hashmgr", 3 }, { "stream", 4 }, { "oneshot", 4 } }, 40000, 4000000, 50, 900, false, false,
+          "cases: mixed batch of all workloads (hash managers, streaming objects, one-shot AES client) with every buffer placed end-flush, "
+          "start-flush or mid-slot in a guard-paged arena (seeded), canaries around every range, checksums of every input/constant object; "
+          "only the memory-map monitor decides; distinct_nontrivial: distinct workload states reached (union of the HashMgrSim, StreamSim "
+          "and one-shot cell measures: (entry/kind, family, length or carry class, placement-independent))",
+          { "a guard page detects out-of-range accesses that cross into the neighbouring page from the flush side; the opposite side is covered by "
+            "canaries (writes) and by the other placement in other runs (reads)",
+            "documented alignment rules are honoured (16-byte CBC IV and key schedules, 64-byte _nt buffers, 16-byte GCM key data)" } },
+        { "C14", "exploration", { { "stream", 2 }, { "oneshot", 4 } }, 30000, 3000000, 50, 900, false, false,
+          "cases: AES entry points of every family (key expansion, GCM precompute/init/update/finalize/one-shot, CBC, XTS) reached from the "
+          "streaming GCM clients and the one-shot client; after each call all 128 16-byte lanes of zmm0-31 and every byte offset of the "
+          "dirtied part of the 64 KiB dead stack are searched for the call's secret set; distinct_nontrivial: distinct (entry/kind, family, "
+          "length class) cells in which an AES call was scanned",
+          { "secret set: raw keys, every encryption/decryption round key, GHASH key and stored powers, E(key2, tweak); 16-byte blocks with fewer than 8 "
+            "distinct byte values are not used as needles",
+            "the dead-stack search is restricted to 4 KiB chunks that differ from the pre-call poison (a chunk identical to the poison cannot hold a "
+            "secret)" } },
+        { "C19", "exploration", { { "hashmgr", 2 }, { "stream", 3 }, { "oneshot", 3 }, { "dispatch", 1 } }, 40000, 4000000, 50, 900, false, false,
+          "cases: every library call of the mixed batch (hash managers, streaming objects, one-shot AES, dispatch resolvers) goes through the "
+          "register-poisoning trampoline; rsp, rbx, rbp, r12-r15, DF, MXCSR control bits, x87 CW and 64 canary bytes above the callee's frame "
+          "are compared after each call; distinct_nontrivial: distinct workload states (as C08) plus distinct (entry, bound target) pairs for "
+          "the resolvers",
+          { "exit paths are reached through the workloads' histories and length classes, not enumerated from the source" } },
+        { "C20", "exploration", { { "hashmgr", 3 }, { "stream", 4 }, { "oneshot", 3 } }, 24000, 2400000, 50, 900, true, false,
+          "cases: every plan of the mixed batch is executed twice with different hidden seeds (output prefill, uninitialised object memory, bytes "
+          "beyond len, caller-saved/vector/mask registers, flags, 64 KiB dead stack) and identical schedule/transport/fault streams and "
+          "addresses; the two observable histories must be identical; distinct_nontrivial: distinct workload states (as C08)",
+          { "object internals, bytes beyond len and register contents after return are deliberately not compared" } },
+        { "C15", "exploration", { { "hashlong", 1 } }, 30, 56, 120, 3000, false, false,
+          "cases: long-stream workload on every (algorithm, family) pair in turn (run i uses pair i mod 28): up to 4 long clients stream the same "
+          "periodic 2 MiB pattern through a 4 GiB aliased window under seeded segmentations (segments up to 2^32-1 bytes, bursts of small "
+          "unaligned segments around each threshold) interleaved with short clients; quick crosses 2^29 on all pairs and 2^32 on a rotated "
+          "subset, thorough crosses 2^32+2^29 on all; distinct_nontrivial: distinct (pair, stream position >> 26, segment length >> 20) cells",
+          { "one streaming reference digest per (algorithm, total length) shared by all clients and families of a process",
+            "the periodic stream is a declared input like any other; periodicity is irrelevant to length accounting" } },
         { "C12", "exploration", { { "dispatch", 1 } }, 200000, 20000000, 50, 900, false, false,
           "cases: seeded architecturally consistent CPUID leaf 1/7 + XCR0 assignments biased to fault profiles (one feature masked, OS state "
           "disabled, OSXSAVE clear, partial AVX-512 group 1 / group 2, SHA without AVX, Avoton, old parts); every dispatched entry's resolver "
@@ -203,8 +238,9 @@ static void exec_checked(Sim *sim, const Plan &p, uint64_t hidA, uint64_t hidB, 
                 v.cls = "history-divergence";
                 v.sig = "C20/history-divergence/" + p.sim;
                 v.detail = strfmt("observable histories of two executions that differ only in hidden state diverge at observable event %zu "
-                                  "(of %zu / %zu)",
-                                  k, r.obs_trace.size(), r2.obs_trace.size());
+                                  "(of %zu / %zu), observable tag 0x%x",
+                                  k, r.obs_trace.size(), r2.obs_trace.size(), k < r.obs_tags.size() ? r.obs_tags[k] : 0xffffffffu);
+                v.sig = strfmt("C20/history-divergence/%s/tag%x", p.sim.c_str(), k < r.obs_tags.size() ? r.obs_tags[k] & ~0xfu : 0xfff0u);
                 v.op_index = -1;
                 v.ev_seq = k;
                 r.viols.push_back(v);
